@@ -47,6 +47,37 @@ Theorem backend_independence :
 Proof. exact backend_independence_proof. Qed.
 Print Assumptions backend_independence.
 
+(* Past the end as well: for every supported operation sequence without the 8-bit reads (which panic past
+   the end on the stream backends), every healthy backend returns what the in-memory backend returns -
+   values, counts, errors, positions - up to the nil-ness of the slice ReadBytes returns (obs_eqv). *)
+Theorem backend_independence_past_end :
+  forall (s : bstate) (d : list Z) (ops : list op),
+    healthy s d -> Forall (allowed (random_access s)) ops -> Forall (fun o => ~ is8 o) ops ->
+    exists st' sb' outs outsb,
+      run any_backend (new_sys s) ops = Some (st', outs) /\
+      run bytes_backend (new_sys d) ops = Some (sb', outsb) /\
+      Forall2 obs_eqv outs outsb /\ cur st' = cur sb' /\ oth st' = oth sb'.
+Proof. exact backend_independence_past_end_proof. Qed.
+Print Assumptions backend_independence_past_end.
+
+(* The constructors build healthy sources: NewBinaryReaderBytes, a reader with Bytes(), a file, the
+   io.ReadAll path (n < 0; for ANY read schedule, zero-length reads and EOF-with-data included),
+   io.Reader / io.ReadSeeker whose reads are non-empty, io.ReaderAt. *)
+Theorem constructors_healthy :
+  forall (d sched : list Z),
+    (forall ewl failing, construct CBytes d sched ewl failing = Some (SBytes d)) /\
+    (forall n ewl failing, construct (CHasBytes n) d sched ewl failing = Some (SBytes d)) /\
+    (forall ewl failing, exists s, construct (CFile (len d)) d sched ewl failing = Some s /\ healthy s d) /\
+    (forall n ewl, n < 0 -> construct (CPlain n) d sched ewl false = Some (SBytes d)) /\
+    (forall n ewl, n < 0 -> construct (CReaderAt n) d sched ewl false = Some (SBytes d)) /\
+    (positive_sched sched -> exists s, construct (CPlain (len d)) d sched false false = Some s /\ healthy s d) /\
+    (positive_sched sched -> forall n, n = len d \/ n < 0 ->
+       exists s, construct (CSeeker n) d sched false false = Some s /\ healthy s d) /\
+    (exists s, construct (CReaderAt (len d)) d [] false false = Some s /\ healthy s d) /\
+    healthy (SBytes d) d.
+Proof. exact constructors_healthy_proof. Qed.
+Print Assumptions constructors_healthy.
+
 (* The mmap backend is the in-memory backend for EVERY operation sequence without zero-length requests
    (and without Close), past the end and after errors included: same observations, same panics. *)
 Theorem mmap_bytes_identical :
